@@ -1746,8 +1746,11 @@ static WBXMLError wbxml_encode_tag_literal(WBXMLEncoder *encoder, const WB_UTINY
         ((elt = wbxml_strtbl_element_create(buff, FALSE)) == NULL) ||
         (!wbxml_strtbl_add_element(encoder, elt, &index, &added)))
     {
-        wbxml_strtbl_element_destroy(elt);
-        wbxml_buffer_destroy(buff);
+        /* The element, once created, owns the buffer */
+        if (elt != NULL)
+            wbxml_strtbl_element_destroy(elt);
+        else
+            wbxml_buffer_destroy(buff);
         return WBXML_ERROR_NOT_ENOUGH_MEMORY;
     }
 
@@ -2424,8 +2427,11 @@ static WBXMLError wbxml_encode_attr_start_literal(WBXMLEncoder *encoder, const W
         ((elt = wbxml_strtbl_element_create(buff, FALSE)) == NULL) ||
         (!wbxml_strtbl_add_element(encoder, elt, &index, &added)))
     {
-        wbxml_strtbl_element_destroy(elt);
-        wbxml_buffer_destroy(buff);
+        /* The element, once created, owns the buffer */
+        if (elt != NULL)
+            wbxml_strtbl_element_destroy(elt);
+        else
+            wbxml_buffer_destroy(buff);
         return WBXML_ERROR_NOT_ENOUGH_MEMORY;
     }
 
